@@ -294,3 +294,62 @@ Proof.
     { unfold getv. apply Forall_nth_d; auto. split; simpl; intros; discriminate. }
     eapply (proj1 Wu); eauto.
 Qed.
+
+(* --------------------------------------------------------------------- Reset *)
+Lemma reset_fold : forall (m : vmap) h l',
+  (forall kv, In kv m -> (snd kv < length h)%nat) ->
+  hget (fold_left (fun h' kv => hset h' (snd kv) 0) m h) l' =
+  if existsb (Nat.eqb l') (map snd m) then 0 else hget h l'.
+Proof.
+  induction m as [|[k l] m IH]; intros h l' Hl; simpl; auto.
+  rewrite IH.
+  - destruct (existsb (Nat.eqb l') (map snd m)); [rewrite orb_true_r; auto|].
+    rewrite orb_false_r. destruct (Nat.eqb l' l) eqn:E.
+    + apply Nat.eqb_eq in E. subst. apply hget_hset_eq. apply (Hl (k, l)). left. auto.
+    + apply hget_hset_neq. apply Nat.eqb_neq in E. auto.
+  - intros kv H. rewrite hset_length. apply Hl. right. auto.
+Qed.
+
+(* v.Reset() on a sparse vector: every element reads 0 afterwards, no other vector changes *)
+Lemma step_sparse_reset y w t :
+  Good3 w t ->
+  let r := step3 y w (VReset (RS t)) in
+  ok_out r /\ dn (fst r) = dn w /\
+  abs3 (fst r) (RS t) = map (fun _ => 0) (abs3 w (RS t)) /\
+  (forall u, u <> t -> sabs (sw (fst r)) u = sabs (sw w) u).
+Proof.
+  intro HG. apply Good_G in HG. destruct HG as (GI & GW & GS & GH).
+  cbn [step3]. unfold ok_out. cbn [fst snd sets sw dn abs3]. split; [auto|]. split; [auto|].
+  set (s := sw w). set (h' := reset (hp s) (getv s t)).
+  assert (HL : forall kv, In kv (vals (getv s t)) -> (snd kv < length (hp s))%nat).
+  { intros [k l] Hin. simpl. destruct (GI t) as (_ & Hnd & _).
+    eapply (proj1 (GW t)). apply In_pair_lookup; eauto. }
+  assert (HC : forall l, existsb (Nat.eqb l) (map snd (vals (getv s t))) = true <-> cell_in (getv s t) l).
+  { intro l. rewrite existsb_exists. split.
+    - intros (x & Hin & E). apply Nat.eqb_eq in E. subst x. apply in_map_iff in Hin.
+      destruct Hin as ([k l0] & E & Hin). simpl in E. subst l0. exists k.
+      destruct (GI t) as (_ & Hnd & _). apply In_pair_lookup; auto.
+    - intros (k & L). exists l. split; [|apply Nat.eqb_refl].
+      apply in_map_iff. exists (k, l). split; auto. apply lookup_In_pair. auto. }
+  split.
+  - unfold sabs, abs_vec. cbn [hp seth getv vecs]. change (getv (seth s h') t) with (getv s t).
+    rewrite map_map. apply map_ext. intro i. unfold peek.
+    destruct (lookup i (vals (getv s t))) as [l|] eqn:L; auto.
+    unfold h', reset. rewrite reset_fold by auto.
+    destruct (existsb (Nat.eqb l) (map snd (vals (getv s t)))) eqn:E; auto.
+    assert (X : cell_in (getv s t) l) by (exists i; auto). apply HC in X. congruence.
+  - intros u N. unfold sabs, abs_vec. cbn [hp seth]. change (getv (seth s h') u) with (getv s u).
+    apply map_ext. intro i. unfold peek.
+    destruct (lookup i (vals (getv s u))) as [l|] eqn:L; auto.
+    unfold h', reset. rewrite reset_fold by auto.
+    destruct (existsb (Nat.eqb l) (map snd (vals (getv s t)))) eqn:E; auto.
+    exfalso. apply HC in E. apply (GS u l N E). exists i. auto.
+Qed.
+Lemma step_dense_reset y w k :
+  hasd w k ->
+  let r := step3 y w (VReset (RD k)) in
+  ok_out r /\ sw (fst r) = sw w /\ abs3 (fst r) (RD k) = map (fun _ => 0) (abs3 w (RD k)).
+Proof.
+  intro Hk. cbn [step3]. unfold ok_out. cbn [fst snd abs3]. split; [auto|]. split; [auto|].
+  apply getd_setd_eq. auto.
+Qed.
